@@ -7,6 +7,7 @@ import Driver.ExecProto
 import Driver.AsmProto
 import Driver.FrontProto
 import Driver.DfuProto
+import Driver.HexProto
 open BB BB.Spec
 
 namespace Driver
@@ -138,7 +139,10 @@ def handle (line : String) : String :=
       | none =>
         match handleAsm toks with
         | some r => r
-        | none => "bad-request"
+        | none =>
+          match handleHex toks with
+          | some r => r
+          | none => "bad-request"
 
 partial def loop (i o : IO.FS.Stream) (st : DfuState := DfuState.init) : IO Unit := do
   let line ← i.getLine
